@@ -14,10 +14,15 @@ EXPLANATION = ("(R1) the ideal law: the granted power is exactly min(pilot x vol
                "power 0; (R4) reset restores the initial (or the validated given) charge and zero power on every path, and "
                "EV.reset zeroes the delivered energy and resets its battery; (R5) the region tests and the pieces of the "
                "continuous closed form agree on the pilot-adjusted breakpoint (decided on expanded expressions with only that "
-               "variable kept symbolic); (R6) the pilot's SoC rate is capped by the maximum SoC rate on every path to a use.")
-NOT_DECIDED = ("agreement of the closed form with the differential law, the period-splitting identity T = T/2 + T/2 and "
-               "monotonicity in pilot and T: identities of real analysis, not visible in the shape of the code "
-               "(e.g. a flipped branch condition between the crossing and non-crossing closed forms is NOT detected)")
+               "variable kept symbolic); (R6) the pilot's SoC rate is capped by the maximum SoC rate on every path to a use; (R7) "
+               "agreement of the continuous closed form with the documented differential law, by computer algebra (sympy) on the expanded "
+               "source expressions: the adjusted breakpoint solves M(1-P)/(1-ts) = D; the constant piece satisfies s(0)=s, s'=D; the "
+               "ramp-down piece s(0)=s, s'=D(1-s)/(1-P); the crossing piece s(tau1)=P at tau1=(P-s)/D and the same equation; the tests "
+               "selecting the pieces are the predicates s < P and s + D <= P up to a positive factor.")
+NOT_DECIDED = ("uniqueness of the solution of the law (hence the period-splitting identity T = T/2 + T/2 and monotonicity in pilot and "
+               "T) is the Picard-Lindelof theorem, taken from analysis: R7 decides that each piece *is* a solution with the right entry "
+               "value and is selected by the right region predicate; the legacy stepwise routine is one Euler step by design and is only "
+               "checked for units and clamps; floating-point error of exp")
 
 
 def rule_units(ck, rid="C14.R2"):
@@ -86,15 +91,9 @@ def rule_reset(ck, rid="C14.R4"):
     ck.require(ok, rid, e, rs[0][1] if rs else "self._battery.reset()", ok="battery reset too", bad="EV.reset must reset its battery", sink="ev-reset-battery")
 
 
-def rule_breakpoint(ck, rid="C14.R5"):
-    """the region test of the two-stage closed form and the formulas it guards use the same breakpoint (the pilot-adjusted
-    transition state of charge): a piecewise solution whose test and pieces disagree on the breakpoint is not a solution of the law.
-    Decided on def-use-expanded expressions in which only the adjusted breakpoint is kept symbolic, so temporaries, extracted helpers
-    (inlined) and conditional-expression forms of the same law are read alike."""
+def breakpoint_var(fl, f):
+    """(name of the pilot-adjusted breakpoint variable, {candidate: [(node, value, leaves)]})"""
     from ..flow import leaves
-    repo = ck.repo
-    f = repo.fn("Linear2StageBattery._charge")
-    fl = flow_of(f)
     cfg = fl.cfg
     NOM = "self._transition_soc"
     need = {NOM, f.params[1], "self._max_power"}
@@ -112,6 +111,22 @@ def rule_breakpoint(ck, rid="C14.R5"):
     if len(last) != 1:
         raise AnalysisError(f"_charge: pilot-adjusted breakpoint not identified (candidates {sorted(names)})")
     adjn = next(iter(last))
+    return adjn, adj
+
+
+def rule_breakpoint(ck, rid="C14.R5"):
+    """the region test of the two-stage closed form and the formulas it guards use the same breakpoint (the pilot-adjusted
+    transition state of charge): a piecewise solution whose test and pieces disagree on the breakpoint is not a solution of the law.
+    Decided on def-use-expanded expressions in which only the adjusted breakpoint is kept symbolic, so temporaries, extracted helpers
+    (inlined) and conditional-expression forms of the same law are read alike."""
+    from ..flow import leaves
+    repo = ck.repo
+    f = repo.fn("Linear2StageBattery._charge")
+    fl = flow_of(f)
+    cfg = fl.cfg
+    NOM = "self._transition_soc"
+    need = {NOM, f.params[1], "self._max_power"}
+    adjn, adj = breakpoint_var(fl, f)
     for n, v, lv in adj[adjn]:
         ck.require(need <= lv, rid, f, n.stmt, ok="adjusted breakpoint depends on the nominal breakpoint, the pilot and the maximum power",
                    bad=f"the pilot-adjusted breakpoint does not depend on {sorted(need - lv)}", sink="breakpoint:definition")
@@ -162,8 +177,123 @@ def rule_breakpoint(ck, rid="C14.R5"):
                    sink="breakpoint:agree")
 
 
+def _split_ifexp(e, facts):
+    """[(expr, [(atom, truth)...])] : the arms of (nested) conditional expressions with the facts selecting them"""
+    from ..flow import edge_facts
+    if isinstance(e, ast.IfExp):
+        return _split_ifexp(e.body, facts + edge_facts(e.test, True)) + _split_ifexp(e.orelse, facts + edge_facts(e.test, False))
+    return [(e, facts)]
+
+
+def rule_law(ck, rid="C14.R7"):
+    """the continuous two-stage closed form solves the documented law.  With s the state of charge, D the (capped) pilot rate in SoC per
+    period, M the maximum rate, ts the nominal and P the pilot-adjusted breakpoint, the law is  ds/dtau = D for s < P,
+    ds/dtau = D (1 - s)/(1 - P) for s >= P  (the ramp-down line M (1 - s)/(1 - ts) meets D at P).  Every piece of the source's closed
+    form, read as a function of elapsed time tau (rate D -> D tau), must satisfy its differential equation and its initial / entry
+    condition *as an identity* (computer algebra on the expanded source expressions), and the tests selecting a piece must be the
+    region predicates s < P and s + D <= P up to a positive factor."""
+    from .. import cas
+    from .c03 import rate_vars
+    repo = ck.repo
+    f = repo.fn("Linear2StageBattery._charge")
+    fl = flow_of(f)
+    cfg = fl.cfg
+    S = cas.sp()
+    cand, maxn = rate_vars(fl, f)
+    if len(cand) != 1:
+        raise AnalysisError(f"_charge: pilot SoC rate not identified ({sorted(cand)})")
+    dvar = next(iter(cand))
+    pvar, adj = breakpoint_var(fl, f)
+    # symbols: everything that lives below 1 is written 1 - (positive), rates are positive
+    D, M, tau = S.symbols("D M tau", positive=True)
+    u, v, w = S.symbols("u v w", positive=True)
+    ts, P, s0 = 1 - u, 1 - v, 1 - w
+    env = {dvar: D, maxn: M, pvar: P, "self._transition_soc": ts, "self._soc": s0, "self.soc": s0}
+    fl.keep = {dvar, maxn, pvar}
+    try:
+        # (a) the adjusted breakpoint is where the ramp-down line meets the pilot rate
+        for n, val, lv in adj[pvar]:
+            pe = cas.to_sympy(fl.expand(val, n), env)
+            z = cas.is_zero(M * (1 - pe) / (1 - ts) - D)
+            if z is None:
+                raise AnalysisError("_charge: identity for the adjusted breakpoint not decided by the algebra system")
+            ck.require(z, rid, f, n.stmt, ok="adjusted breakpoint P solves M (1 - P)/(1 - ts) = D (the ramp-down line meets the pilot rate there)",
+                       bad=f"`{src(n.stmt, 70)}`: the pilot-adjusted breakpoint is not the state of charge at which the ramp-down line M(1-s)/(1-ts) equals the pilot rate",
+                       sink="law:breakpoint")
+        # pieces: every definition of the variable(s) that hold a closed-form value
+        pieces = []
+        targets = set()
+        for n in cfg.nodes:
+            for nm, how in fl._defs.get(n, {}).items():
+                if how[0] == "assign" and "exp(" in canon(fl.expand(how[1], n)) and nm not in (pvar,):
+                    targets.add(nm)
+        for n in cfg.nodes:
+            for nm, how in fl._defs.get(n, {}).items():
+                if nm in targets and how[0] == "assign":
+                    if isinstance(how[1], ast.Name) and how[1].id in targets:
+                        continue            # a copy of another closed-form variable (result variable of an inlined helper)
+                    ex = fl.expand(how[1], n)
+                    cs = canon(ex)
+                    if "normal(" in cs or "abs(" in cs or "max(" in cs or "min(" in cs:
+                        continue            # the noise clamp (C03.R3)
+                    base = [(fl.expand(a, n), t) for a, t in facts_at(fl, n)]
+                    for arm, facts in _split_ifexp(ex, base):
+                        pieces.append((n, arm, facts))
+    finally:
+        fl.keep = set()
+    ck.floor(rid, len(pieces), 3, "pieces of the continuous closed form")
+    region_h = P - s0            # > 0  <=>  s < P
+    inner_h = P - s0 - D         # >= 0 <=>  the whole period stays below P
+    n_checked = 0
+    for n, arm, facts in pieces:
+        try:
+            F1 = cas.to_sympy(arm, env)
+        except AnalysisError as e:
+            raise AnalysisError(f"_charge: piece `{canon(arm)[:50]}`: {e}")
+        F = F1.subs(D, D * tau)
+        # which region predicates select this piece
+        sel = {}
+        for a, t in facts:
+            c = cmp_norm(a, t)
+            if not c or c[1] not in ("<", "<="):
+                continue
+            try:
+                g = cas.compare_term(c, env)
+            except AnalysisError:
+                continue            # a fact about something else (noise level, pilot sign, ...)
+            if g is None:
+                continue
+            for name, h in (("region", region_h), ("inner", inner_h)):
+                sg = cas.ratio_sign(g, h)
+                if sg is not None:
+                    sel[name] = sg
+        kind = "ramp" if sel.get("region") == -1 else "constant" if (sel.get("region") == 1 and sel.get("inner") == 1) else \
+            "crossing" if (sel.get("region") == 1 and sel.get("inner") == -1) else None
+        if kind is None:
+            ck.violation(rid, f, n.stmt, f"the piece `{canon(arm)[:60]}` is not selected by the region predicates of the law (soc < P, soc + D <= P): found {sel}", sink="law:selection")
+            continue
+        n_checked += 1
+        if kind == "constant":
+            ok = [cas.is_zero(F.subs(tau, 0) - s0), cas.is_zero(S.diff(F, tau) - D)]
+            what = "s(0) = s and ds/dtau = D (constant-power region)"
+        elif kind == "ramp":
+            ok = [cas.is_zero(F.subs(tau, 0) - s0), cas.is_zero(S.diff(F, tau) - D * (1 - F) / (1 - P))]
+            what = "s(0) = s and ds/dtau = D (1 - s)/(1 - P) (ramp-down region)"
+        else:
+            tau1 = (P - s0) / D
+            ok = [cas.is_zero(F.subs(tau, tau1) - P), cas.is_zero(S.diff(F, tau) - D * (1 - F) / (1 - P))]
+            what = "s = P when the breakpoint is reached and ds/dtau = D (1 - s)/(1 - P) afterwards (period crossing the breakpoint)"
+        if any(o is None for o in ok):
+            raise AnalysisError(f"_charge: identity for the {kind} piece not decided by the algebra system")
+        ck.require(all(ok), rid, f, n.stmt, ok=f"{kind} piece satisfies {what}",
+                   bad=f"the {kind} piece `{canon(arm)[:70]}` does not satisfy {what}: it is not the solution of the documented two-stage law "
+                       f"({'initial/entry condition' if not ok[0] else 'differential equation'} fails)", sink=f"law:{kind}")
+    ck.floor(rid, n_checked, 3, "pieces checked against the law")
+
+
 def run(ck):
     rule_breakpoint(ck)
+    rule_law(ck)
     # the documented law charges at min(pilot, maximum) in the constant-power region: the pilot's SoC rate is capped before every use
     from .c03 import rule_pilot_cap
     rule_pilot_cap(ck, rid="C14.R6")
